@@ -14,6 +14,7 @@ import (
 
 	"github.com/bluenviron/gomavlib/v3"
 	"github.com/bluenviron/gomavlib/v3/pkg/dialect"
+	"github.com/bluenviron/gomavlib/v3/pkg/frame"
 
 	"verifharness/hx"
 	"verifharness/scn"
@@ -650,6 +651,78 @@ func genC12(o *hx.Out, tier string) {
 			verdict = "GOROUTINE-LEAK " + l
 		}
 		o.Add("initialisation outcome agnostic: "+od.name, verdict, "expect", "ok", "odd-config "+od.name)
+	}
+	// ---- the same for odd but representable node settings (extreme numbers): whether NewNode
+	// accepts them or not, nothing is left behind: ports free, no goroutine, and the custom
+	// transport closed exactly once when the node ran and was closed ----
+	cdial := shipped("common")
+	type oddNode struct {
+		name string
+		mod  func(*gomavlib.NodeConf)
+	}
+	oddNodes := []oddNode{
+		{"stream request frequency 65535", func(c *gomavlib.NodeConf) { c.StreamRequestEnable = true; c.StreamRequestFrequency = 65535 }},
+		{"stream request frequency 65536", func(c *gomavlib.NodeConf) { c.StreamRequestEnable = true; c.StreamRequestFrequency = 65536 }},
+		{"stream request frequency -1", func(c *gomavlib.NodeConf) { c.StreamRequestEnable = true; c.StreamRequestFrequency = -1 }},
+		{"stream request frequency 2^40", func(c *gomavlib.NodeConf) { c.StreamRequestEnable = true; c.StreamRequestFrequency = 1 << 40 }},
+		{"system id 255, component id 255", func(c *gomavlib.NodeConf) { c.OutSystemID = 255; c.OutComponentID = 255 }},
+		{"heartbeat types 255", func(c *gomavlib.NodeConf) {
+			c.HeartbeatDisable = false
+			c.HeartbeatSystemType = 255
+			c.HeartbeatAutopilotType = 255
+			c.HeartbeatPeriod = time.Hour
+		}},
+		{"heartbeat system type -1", func(c *gomavlib.NodeConf) {
+			c.HeartbeatDisable = false
+			c.HeartbeatSystemType = -1
+			c.HeartbeatPeriod = time.Hour
+		}},
+		{"v1 with an outgoing key", func(c *gomavlib.NodeConf) { c.OutVersion = gomavlib.V1; c.OutKey = frame.NewV2Key(make([]byte, 32)) }},
+		{"system id 0", func(c *gomavlib.NodeConf) { c.OutSystemID = 0 }},
+		{"timeouts of one nanosecond", func(c *gomavlib.NodeConf) { c.ReadTimeout = 1; c.WriteTimeout = 1; c.IdleTimeout = 1 }},
+	}
+	for oi, on := range oddNodes {
+		np := 28000 + int(hx.Seed()%100)*20 + oi // a port of its own: one leak does not fail the next setting
+		pipe := scn.NewPipe("odd")
+		conf := gomavlib.NodeConf{Endpoints: []gomavlib.EndpointConf{
+			gomavlib.EndpointTCPServer{Address: fmt.Sprintf("127.0.0.1:%d", np)},
+			gomavlib.EndpointUDPServer{Address: fmt.Sprintf("127.0.0.1:%d", np)},
+			gomavlib.EndpointCustom{ReadWriteCloser: pipe},
+		}, Dialect: cdial, OutVersion: gomavlib.V2, OutSystemID: 10, HeartbeatDisable: true}
+		on.mod(&conf)
+		verdict := "ok"
+		var node *gomavlib.Node
+		var err error
+		if pn := hx.Safe(func() string { node, err = gomavlib.NewNode(conf); return "" }); pn == "panic" {
+			verdict = "NEWNODE-PANICKED"
+		} else if err == nil {
+			col := scn.NewCollector(node, 0, false)
+			col.Wait(func() bool { return len(col.Channels()) > 0 })
+			if !scn.CloseWithin(node, 8*time.Second) {
+				verdict = "CLOSE-DID-NOT-RETURN"
+			}
+			select {
+			case <-col.Done:
+			case <-time.After(3 * time.Second):
+			}
+			if n := atomic.LoadInt32(&pipe.Closes); verdict == "ok" && n != 1 {
+				verdict = fmt.Sprintf("CUSTOM-TRANSPORT-CLOSED-%d-TIMES", n)
+			}
+		}
+		what := "AFTER-CLOSE"
+		if err != nil {
+			what = "AFTER-FAILED-INIT (" + err.Error() + ")"
+		}
+		if verdict == "ok" && !canListenTCP(fmt.Sprintf("127.0.0.1:%d", np)) {
+			verdict = "TCP-PORT-LEFT-BOUND-" + what
+		}
+		if verdict == "ok" && !canListenUDP(fmt.Sprintf("127.0.0.1:%d", np)) {
+			verdict = "UDP-PORT-LEFT-BOUND-" + what
+		}
+		if l := scn.Leaks(); l != "" && verdict == "ok" {
+			verdict = "GOROUTINE-LEAK-" + what + " " + l
+		}
+		o.Add("initialisation outcome agnostic: "+on.name, verdict, "expect", "ok", "odd-node "+on.name)
 	}
 	runtime.GOMAXPROCS(runtime.NumCPU())
 }
